@@ -1,0 +1,79 @@
+//go:build verif
+
+package state
+
+import (
+	"math/big"
+
+	"github.com/youchainhq/go-youchain/common"
+)
+
+// Read-only accessors for the C09 verification harness (snapshot/revert bookkeeping and
+// the flags that no exported getter shows). Compiled only with the build tag `verif`.
+
+// VerifC09Lens returns len(validRevisions), len(valValidRevisions), account journal length,
+// validator journal length.
+func (st *StateDB) VerifC09Lens() (revs, valRevs, journal, valJournal int) {
+	return len(st.validRevisions), len(st.valValidRevisions), st.journal.length(), st.validatorJournal.length()
+}
+
+// VerifC09RevIDs returns the snapshot ids of both revision lists.
+func (st *StateDB) VerifC09RevIDs() (acc, val []int) {
+	for _, r := range st.validRevisions {
+		acc = append(acc, r.id)
+	}
+	for _, r := range st.valValidRevisions {
+		val = append(val, r.id)
+	}
+	return
+}
+
+// VerifC09Dirties returns copies of the dirty counters of both journals.
+func (st *StateDB) VerifC09Dirties() (acc, val map[common.Address]int) {
+	acc, val = map[common.Address]int{}, map[common.Address]int{}
+	for a, n := range st.journal.dirties {
+		acc[a] = n
+	}
+	for a, n := range st.validatorJournal.dirties {
+		val[a] = n
+	}
+	return
+}
+
+// VerifC09Obj reports the live/trie view of an account without the `deleted` filter.
+type VerifC09Obj struct {
+	Exists, Suicided, Deleted bool
+	Nonce                     uint64
+	Balance, DelegationBal    *big.Int
+	Delegations               []common.Address
+}
+
+func (st *StateDB) VerifC09Obj(addr common.Address) VerifC09Obj {
+	o := st.getDeletedStateObject(addr)
+	if o == nil {
+		return VerifC09Obj{}
+	}
+	r := VerifC09Obj{Exists: true, Suicided: o.suicided, Deleted: o.deleted, Nonce: o.data.Nonce,
+		Balance: new(big.Int).Set(o.data.Balance), DelegationBal: new(big.Int).Set(o.data.DelegationBalance)}
+	for _, a := range o.Delegations() {
+		r.Delegations = append(r.Delegations, a)
+	}
+	return r
+}
+
+// VerifC09RawValidator returns the live validator object even when it is flagged deleted
+// (after forcing a load from the validator trie), and its deleted flag.
+func (st *StateDB) VerifC09RawValidator(addr common.Address) (*Validator, bool) {
+	st.getValidator(addr)
+	if obj, ok := st.validatorObjects.Load(addr); ok && obj != nil {
+		v := obj.(*Validator)
+		return v, v.deleted
+	}
+	return nil, false
+}
+
+// VerifC09InIndex reports membership of the in-memory validator index.
+func (st *StateDB) VerifC09InIndex(addr common.Address) bool {
+	_, ok := st.validatorIndex.data.Load(addr)
+	return ok
+}
